@@ -49,3 +49,7 @@ pub fn btree_index<V: Copy>(m: &BTreeMap<usize, V>, k: &usize) -> (r: V)
 { unimplemented!() }
 pub assume_specification<T: Clone>[ <[T]>::to_vec ](s: &[T]) -> (r: Vec<T>)
     ensures r@ == s@;
+// R2: `.unwrap()` / `.expect(..)` on a value that may be Err/None panics (= diverges)
+pub trait UnwrapAbort<T> { fn unwrap_abort(self) -> T; }
+impl<T, E2> UnwrapAbort<T> for Result<T, E2> { #[verifier::external_body] fn unwrap_abort(self) -> (r: T) ensures self is Ok, r == self->Ok_0 { unimplemented!() } }
+impl<T> UnwrapAbort<T> for Option<T> { #[verifier::external_body] fn unwrap_abort(self) -> (r: T) ensures self is Some, r == self->Some_0 { unimplemented!() } }
